@@ -94,9 +94,18 @@ func c19Check(c C19Case, rec *evid.Rec) error {
 		return fmt.Errorf("%s: %v", what, err)
 	}
 	for lvl, src := range []val.V{tview, rview} {
-		built, err := nodes.Build(src, nodes.NewProg(c.Prog), typedx.TypedProto(proto, lvl))
-		if err != nil {
+		nbReuse := typedx.TypedProto(proto, lvl).NewBuilder()
+		if err := evid.Guard("assembling", func() error { return nodes.Assemble(nbReuse, src, nodes.NewProg(c.Prog), 0) }); err != nil {
 			return fmt.Errorf("%s: building level %d from %s failed: %w", what, lvl, src.Short(200), err)
+		}
+		built := nbReuse.Build()
+		// the builder is Reset (and, for the type level, used again for the same value): the Go value behind the
+		// first node is not the builder's any more
+		if err := evid.Guard("Reset", func() error { nbReuse.Reset(); return nil }); err != nil {
+			return fmt.Errorf("%s: %v", what, err)
+		}
+		if lvl == 0 {
+			_ = evid.Guard("assembling again", func() error { return nodes.Assemble(nbReuse, src, nodes.NewProg(c.Prog), 0) })
 		}
 		var un interface{}
 		if err := evid.Guard("bindnode.Unwrap", func() error { un = bindnode.Unwrap(built); return nil }); err != nil {
